@@ -393,3 +393,24 @@ def values_reaching(fn, var, start_block, target_block, universe, stop_blocks=()
                 if s is not None:
                     work.append((s, vals))
     return got
+
+
+def guards_through(prog, root, f, x, fresh=True):
+    """guards of element x of function f, plus — when f is a helper of `root` with call sites there — the guards
+    common to all of its call sites in root (one level)"""
+    g = list(f.guards(x, fresh=fresh) or [])
+    if f is root:
+        return g
+    sites = root.calls(f.name)
+    if not sites:
+        return g
+    common = None
+    for sc in sites:
+        gs = [(c.sx(), t, c) for c, t in root.guards(sc, fresh=fresh) or []]
+        keys = {(k, t) for k, t, _ in gs}
+        common = keys if common is None else (common & keys)
+        last = gs
+    for k, t, c in last:
+        if (k, t) in (common or ()):
+            g.append((c, t))
+    return g
